@@ -255,6 +255,7 @@ func (e *Engine) Load(name string) (*Template, error) {
 	// Set when a loader that has the template failed to deliver it: that is a failure
 	// of its own, not a missing template
 	loadFailed := false
+	var loadFailures []error
 
 	for _, loader := range e.loaders {
 		source, err := loader.Load(name)
@@ -263,6 +264,7 @@ func (e *Engine) Load(name string) (*Template, error) {
 			loaderErrors = append(loaderErrors, fmt.Errorf("loader %T: %w", loader, err))
 			if !errors.Is(err, ErrTemplateNotFound) && loader.Exists(name) {
 				loadFailed = true
+				loadFailures = append(loadFailures, fmt.Errorf("loader %T: %w", loader, err))
 			}
 			continue
 		}
@@ -309,9 +311,11 @@ func (e *Engine) Load(name string) (*Template, error) {
 			}
 
 			if loadFailed {
-				// Keep the loaders' own errors reachable through errors.Is / errors.As,
-				// and do not report a read failure as "template not found"
-				cause := errors.Join(loaderErrors...)
+				// Keep the failing loaders' own errors reachable through errors.Is / errors.As,
+				// and do not report a read failure as "template not found": the "not found"
+				// answers of the other loaders are left out, so that the result does not match
+				// ErrTemplateNotFound
+				cause := errors.Join(loadFailures...)
 				LogError(cause, fmt.Sprintf("Failed to load template '%s'", name))
 				return nil, fmt.Errorf("failed to load template '%s': %w", name, cause)
 			}
